@@ -83,7 +83,7 @@ func init() {
 
 const rule = "PRNG cases (seed+tier determine the list), case i runs on configuration i%4 {mem-off, mem-tiny, mem-one, mem-large} with slow or fast memory TTL: " +
 	"one fresh blob (0 B - 64 KiB, sizes around piece-length multiples) and a script of 1-3 writes over 8 write paths x 8 stream kinds " +
-	"(patterns: mismatch only; mismatch then exact; exact then mismatch; exact; mismatch || exact concurrently; two mismatches; ~10%: patch-race = chunked upload over HTTP whose last PATCH body is still streaming when the commit is issued, PRNG offsets/lengths/endpoint and order of completion {after-commit, before-commit, abort-after-commit, concurrent}; on memory configurations ~9% each: mem-then-disk = exact blob through the memory path, then a differing stream through a disk path before the drain, then drain; slow-reader = store/piece readers opened while memory resident, partly read, held across the drain and 1-4 later memory-path writes of similar-sized blobs) with steps {observe, drain1, drainAll, tick, ttl} between and after the writes. " +
+	"(patterns: mismatch only; mismatch then exact; exact then mismatch; exact; mismatch || exact concurrently; two mismatches; ~10%: patch-race = chunked upload over HTTP whose last PATCH body is still streaming when the commit is issued, PRNG offsets/lengths/endpoint and order of completion {after-commit, before-commit, abort-after-commit, concurrent} and the digest in the slow PATCH's URL {same, random other, another blob in play}; on memory configurations ~9% each: mem-then-disk = exact blob through the memory path, then a differing stream through a disk path before the drain, then drain; slow-reader = store/piece readers opened while memory resident, partly read, held across the drain and 1-4 later memory-path writes of similar-sized blobs) with steps {observe, drain1, drainAll, tick, ttl} between and after the writes. " +
 	"non-trivial = the case contains >=1 write whose stream differs from the blob and made >=3 observations; distinct = distinct (config, blob size, script)."
 
 // ---------------------------------------------------------------------------
@@ -413,6 +413,11 @@ type raceSpec struct {
 	Mode        string `json:"mode"` // after-commit | before-commit | abort-after-commit | concurrent
 	ExactChunks int    `json:"exact_chunks"`
 	Arg         int64  `json:"arg"`
+	// PatchDigest: digest in the URL of the slow PATCH. Upload files are
+	// addressed by uid alone, nothing binds a uid to the digest in the URL:
+	// "same" = d; "random" = some other valid digest; "other" = the digest of
+	// another blob in play (falls back to random if there is none).
+	PatchDigest string `json:"patch_digest"`
 }
 
 type event struct {
@@ -546,6 +551,7 @@ func genCase(r *rand.Rand, spec cfgSpec, fastTTL bool, slot int) *caseSpec {
 			tail = c.BlobSize - rs.Split + 1 + r.Intn(200) // runs past the end of the blob
 		}
 		rs.K = rs.Split - rs.Off + tail
+		rs.PatchDigest = []string{"same", "same", "random", "random", "other"}[r.Intn(5)]
 		c.Race = rs
 		after := []string{"obs", "drain1", "obs", "tick", "obs-http", "drainAll", "obs"}
 		c.Steps = [][]string{after[:1+r.Intn(len(after))]}
@@ -1247,8 +1253,32 @@ func (w *world) patchRace(cs *caseState) bool {
 	if rs.Split < len(blob) && tail[0] == blob[rs.Split] {
 		tail[0] ^= 0x5a
 	}
+	patchBase := base
+	if rs.PatchDigest != "same" {
+		other := gen.SHA256Hex(gen.Bytes(r, 32))
+		if rs.PatchDigest == "other" {
+			w.regMu.RLock()
+			for _, x := range w.active {
+				if x == cs {
+					continue
+				}
+				if _, err := w.cas.GetCacheFileStat(x.hex); err != nil {
+					other = x.hex // in play and not (yet) present: the PATCH is not refused with 409
+					break
+				}
+			}
+			w.regMu.RUnlock()
+		}
+		if od, err := core.NewSHA256DigestFromHex(other); err == nil {
+			patchBase = fmt.Sprintf("http://%s/internal/blobs/%s/uploads", w.addr, od)
+			if rs.Endpoint == "upload" {
+				patchBase = fmt.Sprintf("http://%s/namespace/%s/blobs/%s/uploads", w.addr, nsScripted, od)
+			}
+		}
+		w.run.Count("patch_race_slow_patch_under_other_digest_"+rs.PatchDigest, 1)
+	}
 	pr, pw := io.Pipe()
-	req, _ := http.NewRequest("PATCH", base+"/"+uid, pr)
+	req, _ := http.NewRequest("PATCH", patchBase+"/"+uid, pr)
 	req.ContentLength = int64(rs.K)
 	req.Header.Set("Content-Range", fmt.Sprintf("%d-%d", rs.Off, rs.Off+rs.K))
 	patchDone := make(chan int, 1)
@@ -1269,7 +1299,21 @@ func (w *world) patchRace(cs *caseState) bool {
 	}
 	// wait until the server has written the head through its open handle
 	synced := false
-	for dl := time.Now().Add(20 * time.Second); time.Now().Before(dl); {
+	for dl := time.Now().Add(3 * time.Second); time.Now().Before(dl); {
+		select {
+		case st := <-patchDone:
+			// the server answered the slow PATCH before taking its body (e.g.
+			// 409: the digest in its URL names a blob that exists): no race
+			pw.CloseWithError(errors.New("patch already answered"))
+			cs.note("patch-race", fmt.Sprintf("slow PATCH (digest in URL: %s) answered early with %d", rs.PatchDigest, st))
+			w.run.Count("patch_race_slow_patch_refused_early", 1)
+			cst, _ := do("PUT", base+"/"+uid, nil, nil)
+			cs.matchingStarted.Store(cst == http.StatusOK) // only a hole-free file can have been committed
+			w.run.Count(fmt.Sprintf("patch_race_commit_%d", cst), 1)
+			w.observeAll(cs, true)
+			return true
+		default:
+		}
 		if f, err := w.cas.GetUploadFileReader(uid); err == nil {
 			buf := make([]byte, len(head))
 			n, _ := f.ReadAt(buf, int64(rs.Off))
@@ -1282,10 +1326,20 @@ func (w *world) patchRace(cs *caseState) bool {
 		time.Sleep(200 * time.Microsecond)
 	}
 	if !synced {
-		pw.CloseWithError(errWatchdog)
-		<-patchDone
-		w.run.Count("patch_race_sync_timeout", 1)
-		return false
+		// The head did not show up in the upload file: the server is not
+		// writing this PATCH (net/http drains an unread request body before it
+		// sends e.g. a 409, so a refusal only becomes visible once the body
+		// is complete) or it is very slow. Finish the body, then commit: no
+		// race was set up, whatever becomes visible is judged as usual.
+		_, _ = pw.Write(tail)
+		pw.Close()
+		pst := <-patchDone
+		cst, _ := do("PUT", base+"/"+uid, nil, nil)
+		cs.note("patch-race", fmt.Sprintf("no handle seen; slow PATCH (digest in URL: %s) -> %d, commit -> %d", rs.PatchDigest, pst, cst))
+		w.run.Count("patch_race_no_open_handle_seen", 1)
+		w.run.Count(fmt.Sprintf("patch_race_commit_%d", cst), 1)
+		w.observeAll(cs, true)
+		return true
 	}
 	cs.note("patch-race", fmt.Sprintf("%s: hole [%d,%d) filled by the slow PATCH [%d,%d), handle open; mode %s", rs.Endpoint, rs.Off, rs.Split, rs.Off, rs.Off+rs.K, rs.Mode))
 	commitDone := make(chan int, 1)
